@@ -4,6 +4,7 @@
 From Coq Require Import ZArith List.
 From Verif Require Import Lib.Params Lib.Octets Spec.Edwards Model.Outcome Model.Eddsa
   Proofs.EddsaProofs.
+From Verif Require Gen.BigIntRoutines Proofs.BigIntEqVerify.
 Local Open Scope Z_scope.
 
 Theorem C14_rejects_noncanonical_S : forall H A msg R8 Sv,
@@ -27,7 +28,19 @@ Theorem C14_at_most_one_encoding : forall H A msg R8 S1 S2 c1 c2,
   verify_with H A msg (R8, S1) = Ok tt -> verify_with H A msg (R8, S2) = Ok tt -> c1 = c2.
 Proof. exact at_most_one_compressed. Qed.
 
+(* TRANSLATOR TIE: tools/bigintgen regenerates value-level Gallina from the Go source of these
+   functions at every run (Gen/BigIntRoutines.v); it equals the hand-written model the theorems
+   above are about, for all arguments.  An edit of the Go function breaks this. *)
+Theorem C14_model_is_the_source : forall p5 m7,
+  (forall pk msg sig, BigIntRoutines.babyjub_PublicKey_VerifyPoseidon p5 pk msg sig = VerifyPoseidon p5 pk msg sig) /\
+  (forall pk msg sig, BigIntRoutines.babyjub_PublicKey_VerifyMimc7 m7 pk msg sig = VerifyMimc7 m7 pk msg sig).
+Proof.
+  intros p5 m7.
+  exact (conj (BigIntEqVerify.gen_babyjub_PublicKey_VerifyPoseidon_eq p5) (BigIntEqVerify.gen_babyjub_PublicKey_VerifyMimc7_eq m7)).
+Qed.
+
 Print Assumptions C14_rejects_noncanonical_S.
 Print Assumptions C14_at_most_one_S.
 Print Assumptions C14_shifted_S_rejected.
 Print Assumptions C14_at_most_one_encoding.
+Print Assumptions C14_model_is_the_source.
